@@ -967,4 +967,57 @@ example : |sphDivergence true .central (fun k => (-1/4 : ℚ) + (k:ℚ) * (1/2))
   sphDivergence_conservative_odd_uniform_bound (1/2) (-1/4) 2 3 1 (1/4) (by norm_num) (by norm_num) (by norm_num)
 
 end ordered
+
+/-! ### non-vacuity of the remaining conditional theorems (hypotheses instantiated) -/
+section
+variable {K : Type} [Field K] [CharZero K]
+
+/-- all components the same quartic: every hypothesis of the quartic tensor / vector theorems holds -/
+example (x0 h : K) (i : Int) (hh : h ≠ 0) (hr : x0 + (i:K) * h ≠ 0) :=
+  polarTensorDivergence_quartic_poly (fun _ => quartic (coef5 (1:K) 2 3 4 5)) (fun _ _ => coef5 1 2 3 4 5)
+    (fun _ _ _ => rfl) x0 h i _ rfl hh hr
+
+example (x0 h : K) (i : Int) (hh : h ≠ 0) (hr : x0 + (i:K) * h ≠ 0) :=
+  sphTensorDivergence_plain_quartic_poly (fun _ => quartic (coef5 (1:K) 2 3 4 5)) (fun _ _ => coef5 1 2 3 4 5)
+    (fun _ _ _ => rfl) x0 h i _ rfl hh hr
+
+example (x0 h : K) (i : Int) (hh : h ≠ 0) (hr : x0 + (i:K) * h ≠ 0) :=
+  radialDivergence_poly (fun _ => quartic (coef5 (1:K) 2 3 4 5)) (coef5 1 2 3 4 5) (fun _ => rfl) x0 h i _ rfl hh hr
+
+/-- tensors regular at the origin with symbolic coefficients -/
+example (a0 a2 a4 b2 b4 x0 h : K) (i : Int) (hh : h ≠ 0) (hr : x0 + (i:K) * h ≠ 0) (hv : h^2 + 12 * (x0 + (i:K) * h)^2 ≠ 0) :=
+  And.intro
+    (sphTensorDoubleDivergence_plain_regular_uniform
+      (fun cs r => if cs = [0, 0] then a0 + a2 * r^2 + a4 * r^4 else a0 + b2 * r^2 + b4 * r^4) a0 a2 a4 b2 b4
+      (by intro r; simp) (by intro r; simp) x0 h i _ rfl hh hr)
+    (And.intro
+      (sphTensorDoubleDivergence_conservative_regular_poly
+        (fun cs r => if cs = [0, 0] then a0 + a2 * r^2 + a4 * r^4 else a0 + b2 * r^2 + b4 * r^4) a0 a2 a4 b2 b4
+        (by intro r; simp) (by intro r; simp) x0 h i _ rfl hh hr hv)
+      (sphTensorDivergence_conservative_regular_poly
+        (fun cs r => if cs = [0, 0] then a0 + a2 * r^2 + a4 * r^4 else a0 + b2 * r^2 + b4 * r^4) a0 a2 a4 b2 b4
+        (by intro r; simp) (by intro r; simp) x0 h i _ rfl hh hr hv))
+
+/-- a field even in `r` with mixed terms, `f = (1 + z)·r⁴ + z³ r² + z`: both `*_even_uniform` theorems of the cylinder, and all
+nine components of the vector gradient for `v_c = f` -/
+example (x0 h z0 k : K) (i j : Int) (hh : h ≠ 0) (hk : k ≠ 0) (hr : x0 + (i:K) * h ≠ 0) :=
+  And.intro
+    (cylLaplace_even_uniform (fun _ r z => (1 + z) * r^4 + z^3 * r^2 + z) x0 h z0 k i j _ _ rfl rfl
+      (coef5 (z0 + (j:K) * k) 0 ((z0 + (j:K) * k)^3) 0 (1 + (z0 + (j:K) * k)))
+      (coef5 ((x0 + (i:K) * h)^4) ((x0 + (i:K) * h)^4 + 1) 0 ((x0 + (i:K) * h)^2) 0)
+      (by intro r; simp only [quartic, coef5, poly4]; ring) (by intro z; simp only [quartic, coef5, poly4]; ring)
+      rfl rfl hh hk hr)
+    (And.intro
+      (cylVectorLaplace_z_even_uniform (fun _ r z => (1 + z) * r^4 + z^3 * r^2 + z) x0 h z0 k i j _ _ rfl rfl
+        (coef5 (z0 + (j:K) * k) 0 ((z0 + (j:K) * k)^3) 0 (1 + (z0 + (j:K) * k)))
+        (coef5 ((x0 + (i:K) * h)^4) ((x0 + (i:K) * h)^4 + 1) 0 ((x0 + (i:K) * h)^2) 0)
+        (by intro r; simp only [quartic, coef5, poly4]; ring) (by intro z; simp only [quartic, coef5, poly4]; ring)
+        rfl rfl hh hk hr)
+      (cylVectorGradient_poly (fun _ r z => (1 + z) * r^4 + z^3 * r^2 + z) x0 h z0 k i j _ _ rfl rfl
+        (fun _ => coef5 (z0 + (j:K) * k) 0 ((z0 + (j:K) * k)^3) 0 (1 + (z0 + (j:K) * k)))
+        (fun _ => coef5 ((x0 + (i:K) * h)^4) ((x0 + (i:K) * h)^4 + 1) 0 ((x0 + (i:K) * h)^2) 0)
+        (by intro c r; simp only [quartic, coef5, poly4]; ring) (by intro c z; simp only [quartic, coef5, poly4]; ring)
+        hh hk))
+end
+
 end PdeVerif.Stencil
